@@ -83,3 +83,8 @@ check("C14",
       "Exploration: each generated history runs through a real Session against mock nodes that evict, change result metadata (and metadata ids) and change statement ids; after UNPREPARED the same connection must see PREPARE and the identical EXECUTE/BATCH; an id change yields an error and no mis-bound EXECUTE; result column specs are those sent along or else the most recently announced; rows decoded under the matching metadata equal the encoded rows; with the extension every skip-metadata EXECUTE presents the latest announced id.",
       "Trusted: vkit::mock implementing UNPREPARED / skip-metadata / metadata-id semantics from the protocol documents. Operations are sequential (concurrent callers not generated). Without metadata ids, 'most recently announced' is read weakly (any PREPARED response's metadata), because stale cached metadata is a documented hazard there.",
       "DESIGN.md 2/C14")
+check("C20",
+      "stateful property-based testing with fault injection against a mock cluster over real sockets: generated histories of use_keyspace / traffic / connection loss / node addition / slow or refused USE; invariant over the mock's per-connection keyspace at every request arrival; generated keyspace names vs a validity model",
+      "Exploration: for every generated history the mock records, for each request frame, the keyspace acknowledged on that connection when the frame arrived; every frame of a request issued while a use_keyspace promise was in force must find exactly that keyspace. Scenario templates place reconnects, node additions and keyspace changes inside windows in which a USE is still unanswered. Names: use_keyspace is refused locally iff the name is not 1..48 of [A-Za-z0-9_] and then nothing is sent; otherwise exactly USE name / USE \"name\" is sent.",
+      "Trusted: the mock's keyspace bookkeeping (set when the SetKeyspace frame is written) and loopback TCP. Schedules are those tokio and the scripted delays produce (sampled, not enumerated); overlapping use_keyspace calls are outside the domain (documented unsupported).",
+      "DESIGN.md 2/C20")
